@@ -456,7 +456,9 @@ func (doc *T) derefPaths(paths map[string]*PathItem, refNameResolver RefNameReso
 	for _, name := range componentNames(paths) {
 		ops := paths[name]
 		// a reference to a path item of this very document
-		isLocalRef := !parentIsExternal && strings.HasPrefix(ops.Ref, "#/paths/")
+		// (below an external document such a reference closes a cycle of that document's path items:
+		// it cannot be inlined either; kept, it names the path of the same name of this document)
+		isLocalRef := strings.HasPrefix(ops.Ref, "#/paths/")
 		// what hangs below a path item of an external document belongs to that document too
 		pathIsExternal := parentIsExternal || (!isLocalRef && isExternalRef(ops.Ref, parentIsExternal))
 		// inline full operations: a path item of another document cannot stay a reference. One of
